@@ -233,6 +233,80 @@ fn one_case<S: Shredder>(ctx: &mut Ctx, rng: &mut SRng, lane: &mut Lane<S>, sk: 
     }
 }
 
+/// What a hostile leader can validly sign: a slice produced with one shredder and decoded with another.
+/// Erasure code and Merkle tree are consistent, but the decoded bytes are (almost surely) no valid slice
+/// payload, the key tail is missing, or the data/coding layout differs. Whatever the decoder answers, an
+/// error must leave the supplied shreds untouched and nothing may panic.
+fn cross_case<E: Shredder, D: Shredder>(ctx: &mut Ctx, rng: &mut SRng, en: &'static str, dn: &'static str, sk: &SecretKey, payload_len: usize) {
+    let mut enc = E::default();
+    let mut dec = D::default();
+    let slot = rng.random_range(1..1000u64);
+    let (wp, si, last) = (rng.random_bool(0.5), rng.random_range(0..1024usize), rng.random_bool(0.5));
+    let Some(slice) = mk_slice(rng, payload_len, wp, slot, si, last) else { return };
+    let Ok(Ok(shreds)) = guarded(|| enc.shred(&slice, sk)) else { return };
+    for shape in ["random32", "random33", "random48", "random63", "first32", "last32", "all64", "alternating-even"] {
+        let sub = subset(rng, shape);
+        let mut arr: [Option<ValidatedShred>; TOTAL_SHREDS] = [const { None }; TOTAL_SHREDS];
+        for &i in &sub {
+            arr[i] = Some(shreds[i].clone());
+        }
+        let before = arr_bytes(&arr);
+        let res = guarded(|| dec.deshred(&mut arr));
+        ctx.eval();
+        let wit = json!({"encoded_with": en, "decoded_with": dn, "payload_len": payload_len, "subset_shape": shape, "subset": sub});
+        match res {
+            Err(p) => ctx.violation(format!("C11 {dn} deshred {} on a slice shredded with {en}", p.sig()), p.msg, wit),
+            Ok(Err(e)) => {
+                ctx.count(&format!("cross:{en}->{dn}:{e:?}"));
+                ctx.distinct(format!("cross:{en}->{dn}:{e:?}:{shape}"));
+                if arr_bytes(&arr) != before {
+                    ctx.violation(format!("C11 {dn} deshred error {e:?} modified the supplied shreds"), format!("slice shredded with {en}, {shape}"), wit);
+                }
+            }
+            Ok(Ok(_)) => {
+                ctx.count(&format!("cross:{en}->{dn}:decoded"));
+                let after = arr_bytes(&arr);
+                if (0..TOTAL_SHREDS).any(|i| before[i].is_some() && before[i] != after[i]) {
+                    ctx.violation(format!("C11 {dn} deshred altered a supplied shred"), format!("slice shredded with {en}, {shape}"), wit);
+                }
+            }
+        }
+    }
+}
+
+fn run_cross(ctx: &mut Ctx, sk: &SecretKey) {
+    let mut rng = ctx.rng("cross");
+    let n = ctx.iters(192, 12000);
+    let off = ctx.shard as u64;
+    for i in off..off + n {
+        let len = match i % 4 {
+            0 => rng.random_range(9..200),
+            1 => rng.random_range(200..4000),
+            2 => rng.random_range(4000..32000),
+            _ => *[9usize, 41, 49, 50, 64, 960, 1024, 32000].choose(&mut rng).unwrap(),
+        };
+        macro_rules! x {
+            ($e:ty, $en:expr, $d:ty, $dn:expr) => {
+                cross_case::<$e, $d>(ctx, &mut rng, $en, $dn, sk, len)
+            };
+        }
+        match i % 12 {
+            0 => x!(AontShredder, "aont", RegularShredder, "regular"),
+            1 => x!(RegularShredder, "regular", AontShredder, "aont"),
+            2 => x!(PetsShredder, "pets", RegularShredder, "regular"),
+            3 => x!(RegularShredder, "regular", PetsShredder, "pets"),
+            4 => x!(CodingOnlyShredder, "coding-only", RegularShredder, "regular"),
+            5 => x!(RegularShredder, "regular", CodingOnlyShredder, "coding-only"),
+            6 => x!(AontShredder, "aont", PetsShredder, "pets"),
+            7 => x!(PetsShredder, "pets", AontShredder, "aont"),
+            8 => x!(AontShredder, "aont", CodingOnlyShredder, "coding-only"),
+            9 => x!(CodingOnlyShredder, "coding-only", AontShredder, "aont"),
+            10 => x!(PetsShredder, "pets", CodingOnlyShredder, "coding-only"),
+            _ => x!(CodingOnlyShredder, "coding-only", PetsShredder, "pets"),
+        }
+    }
+}
+
 fn lengths(ctx: &Ctx, max: usize) -> Vec<usize> {
     let mut v = Vec::new();
     if ctx.quick() {
@@ -285,6 +359,7 @@ pub fn run(ctx: &mut Ctx) -> Result<(), String> {
     run_lane::<CodingOnlyShredder>(ctx, "coding-only", &sk, &pk);
     run_lane::<PetsShredder>(ctx, "pets", &sk, &pk);
     run_lane::<AontShredder>(ctx, "aont", &sk, &pk);
+    run_cross(ctx, &sk);
     ctx.sample(json!({"shredders": ["regular", "coding-only", "pets", "aont"], "subset_shapes": SUBSET_SHAPES, "example": {"shredder": "regular", "payload_len": 8192 + (ctx.shard % 64), "with_parent": true, "shape": "random32"}}));
     Ok(())
 }
